@@ -134,7 +134,7 @@ impl Prop for C08 {
         "C08"
     }
     fn rule(&self) -> String {
-        "five complete families, both backends, every case in a worker subprocess with a 10 s watchdog, 8 MiB stack, 6 GiB address-space cap; compile + Display + contextualize of every error and warning: (1) all sequences of <=L tokens (quick 3, thorough 4) over a 40-token alphabet as whole input / module body / after `A ::=`; (2) every byte prefix of the 35 feature modules, token-boundary prefixes of the smallest real-world modules, and every single-token edit (delete, duplicate, swap, replace by / insert each of the 40 tokens) at every token position of the feature modules (thorough: + 30 real-world modules); (3) é/€/𝄞 inserted at every character position of the feature modules; (4) every feature module left inside an unterminated comment (line, block depth 1..3), cstring, bstring, brace, parenthesis, version bracket; (5) all functional reference graphs on 3 nodes over 8 edge kinds (alias, constrained alias, COMPONENTS OF, member, OF element, selection, CHOICE alternative, parameterized instantiation) with/without a value of the first type, nesting depth 2^k (quick <=4096, thorough <=65536) for 14 bracket-like recursions, and 16 parsed-but-unsupported notations in 6 positions. Oracle: the worker answers within the watchdog with a non-panic outcome. Non-trivial: the input reached the compiler and a verdict came back.".into()
+        "six complete families, both backends, every case in a worker subprocess with a 10 s watchdog, 8 MiB stack, 6 GiB address-space cap; compile + Display + contextualize of every error and warning: (1) all sequences of <=L tokens (quick 3, thorough 4) over a 40-token alphabet as whole input / module body / after `A ::=`; (2) every byte prefix of the 35 feature modules, token-boundary prefixes of the smallest real-world modules, and every single-token edit (delete, duplicate, swap, replace by / insert each of the 40 tokens) at every token position of the feature modules (thorough: + 30 real-world modules); (3) é/€/𝄞 inserted at every character position of the feature modules; (4) every feature module left inside an unterminated comment (line, block depth 1..3), cstring, bstring, brace, parenthesis, version bracket; (5) all functional reference graphs on 3 nodes over 8 edge kinds (alias, constrained alias, COMPONENTS OF, member, OF element, selection, CHOICE alternative, parameterized instantiation) with/without a value of the first type, nesting depth 2^k (quick <=4096, thorough <=65536) for 14 bracket-like recursions, and 16 parsed-but-unsupported notations in 6 positions; (6) boundary numbers: 18 number positions of the grammar (enumeration item / addition, named number, named bit, range ends, size, tag, OID arc, value, DEFAULT, version number) x 12 machine-word boundaries (i128/i64/u64/u32 extremes and their neighbours, -1, 0). Oracle: the worker answers within the watchdog with a non-panic outcome. Non-trivial: the input reached the compiler and a verdict came back.".into()
     }
     fn assumptions(&self) -> Vec<String> {
         vec!["panic keys are file::function (resolved with syn from the panic Location) + message class; crashes/hangs are keyed by the input-shape label".into()]
@@ -585,6 +585,46 @@ impl Prop for C08 {
                 if mixed != *body {
                     push("unsupported", format!("hostile-mixed:{lab}"), module(&mixed), "both");
                 }
+            }
+        }
+        // (6) boundary numbers: every position of the grammar that holds a number x every machine-word boundary
+        let boundaries: [(&str, String); 12] = [
+            ("i128max", i128::MAX.to_string()),
+            ("i128max-1", (i128::MAX - 1).to_string()),
+            ("i128min", i128::MIN.to_string()),
+            ("i128min+1", (i128::MIN + 1).to_string()),
+            ("u64max", u64::MAX.to_string()),
+            ("u64max+1", (u64::MAX as u128 + 1).to_string()),
+            ("i64min", i64::MIN.to_string()),
+            ("i64min-1", (i64::MIN as i128 - 1).to_string()),
+            ("u32max", u32::MAX.to_string()),
+            ("u32max+1", (u32::MAX as u64 + 1).to_string()),
+            ("minus1", "-1".to_string()),
+            ("zero", "0".to_string()),
+        ];
+        let positions: [(&str, &str); 18] = [
+            ("enum-item", "Ax ::= ENUMERATED { a(#), b }"),
+            ("enum-item-last", "Ax ::= ENUMERATED { a, b(#), c }"),
+            ("enum-addition", "Ax ::= ENUMERATED { a, ..., b(#) }"),
+            ("enum-addition-then-plain", "Ax ::= ENUMERATED { a, ..., b(#), c }"),
+            ("named-number", "Ax ::= INTEGER { a(#) } (0..a)"),
+            ("named-bit", "Bx ::= BIT STRING { a(#) }\nv Bx ::= { a }"),
+            ("range-lo", "Ax ::= INTEGER (#..MAX)"),
+            ("range-hi", "Ax ::= INTEGER (MIN..#)"),
+            ("range-both", "Ax ::= INTEGER (#..#)"),
+            ("range-ext", "Ax ::= INTEGER (0..1, ..., #)"),
+            ("size", "Ax ::= OCTET STRING (SIZE (#))"),
+            ("size-range", "Ax ::= SEQUENCE (SIZE (0..#)) OF NULL"),
+            ("tag", "Ax ::= [#] INTEGER"),
+            ("oid-arc", "a OBJECT IDENTIFIER ::= { 1 2 # }"),
+            ("oid-named-arc", "a OBJECT IDENTIFIER ::= { iso x(#) }"),
+            ("value", "a INTEGER ::= #\nAx ::= INTEGER (0..a)"),
+            ("default", "Sx ::= SEQUENCE { a INTEGER DEFAULT #, b INTEGER (-1..#) DEFAULT # }"),
+            ("version", "Sx ::= SEQUENCE { a NULL, ..., [[ #: b NULL ]] }"),
+        ];
+        for (pl, ptext) in positions.iter() {
+            for (bl, b) in boundaries.iter() {
+                push("unsupported", format!("boundary:{pl}:{bl}"), module(&ptext.replace('#', b)), "both");
             }
         }
         out
